@@ -31,6 +31,16 @@ NEEDS = {
  "C16-B": ("helper adds the virtual-evidence states to the caller's evidence dict", "a question with a caller-owned evidence dict AND virtual evidence", "C16 evidence_argument_changed (rebased patch)"),
  "C17-A": ("interface evidence carried forward only if `state` is truthy", "interface evidence in state index 0 at a slice >= 1", "C17 forward_inference marginal"),
  "C17-B": ("belief update divides before multiplying", "smoothing with a zero entry in a forward message", "C17 backward_inference marginal (NaN)"),
+ "C10-A": ("BIC/AIC take the variable's cardinality from the observed count matrix", "a declared but never observed state of the scored variable", "C10 local.value (declared-unobserved states)"),
+ "C10-B": ("state_counts(reindex=False) fast path with a mixed-radix stride slip", ">= 3 parents with non-uniform cardinalities", "C10 local.value / counts"),
+ "C14-A": ("is_triangulated shortcut |E| < |V| => chordal", "disconnected graph with one chordless cycle (>= 2 components)", "C14 triangulate.not_chordal (disconnected-cycle shapes; missed at first)"),
+ "C14-B": ("to_junction_tree used-factor bookkeeping keyed by id()", "the SAME factor object listed twice in the network", "C14 junction_tree.joint / factor_bag (same-object duplicates; missed at first)"),
+ "C18-A": ("closure() memoised and handed out by reference", "mutating a returned closure, then asking closure/entails again", "C18 closure.aliasing (missed at first)"),
+ "C18-B": ("is_iequivalent shielding test uses DiGraph.neighbors (= successors)", "collider whose parents are joined by the edge second-parent -> first-parent", "C18 iequivalent.verdict"),
+ "C19-A": ("stratified power-divergence test indexes positional codes by index labels", "DataFrame with a non-default index (shuffled / filtered rows)", "C19 row-order / index-label invariance (missed at first)"),
+ "C19-B": ("partial-correlation design matrix centred by the grand mean", ">= 2 conditioning variables with different means", "C19 pearsonr.value vs residual form"),
+ "C20-A": ("to_joint_gaussian pairs coefficients with the graph's parent order", "CPD evidence order different from edge insertion order, unequal coefficients", "C20 joint.mean / joint.covariance"),
+ "C20-B": ("in-place Gaussian product/divide keeps the stale cached precision matrix", "precision_matrix / canonical form read after an in-place operation", "C20 inplace.precision"),
 }
 base = os.path.join(os.path.dirname(os.path.dirname(os.path.abspath(__file__))), "seeded")
 for sid in sorted(os.listdir(base)):
